@@ -31,7 +31,7 @@
 //@ global HASHRPDAC RPDAC HASHRPF RPFC
 //@ ob rp_cmpRP_pattern entry=h_cmpRP enforce=RePair__extractStringAndCompareRP replace=LogSequence__getField,RePair__expandRuleAndCompareString loops tier=P props=C14,C07 kind=statement timeout=600
 //@ ob rp_expandRule entry=h_expand tier=B props=C20,C07 kind=statement unwind=5 foreach=NRULES:1-2 timeout=900 defs=-DREAL_GETFIELD
-//@ ob rp_expandRule3 entry=h_expand tier=B props=C20,C07 kind=statement unwind=9 timeout=3600 mem=30 defs=-DREAL_GETFIELD,-DNRULES=3 only=thorough
+//@ ob rp_expandRule3 entry=h_expand tier=B props=C20,C07 kind=statement unwind=9 mem=30 defs=-DREAL_GETFIELD,-DNRULES=3,-DT=4 timeout=1800 only=thorough
 //@ ob rp_expandCompare entry=h_expcmp tier=B props=C20,C02,C01,C03 kind=statement unwind=7 foreach=NRULES:1-2 timeout=900 defs=-DREAL_GETFIELD,-DREAL_COMPARE
 //@ ob rp_cmpRP_ref entry=h_cmpRP_ref tier=B props=C02,C01,C03 kind=statement unwind=7 unwindset=RePair__expandRuleAndCompareString_real:2,RePair__expandRuleAndCompareString:2 timeout=600 mem=30 defs=-DREAL_GETFIELD,-DREAL_COMPARE
 //@ ob rp_cmpDAC_ref entry=h_cmpDAC_ref tier=B props=C03,C02,C01,C07 kind=statement unwind=7 unwindset=RePair__expandRuleAndCompareString_real:2,RePair__expandRuleAndCompareString:2 timeout=900 mem=30 defs=-DREAL_GETFIELD,-DREAL_COMPARE
